@@ -121,6 +121,12 @@ def desc(e):
         if inner.get("k") == "call" and inner.get("a"):
             return desc(inner["a"][0]) + "?"
         return "?"
+    if k == "if":
+        c = thir.peel(e["c"]) if isinstance(e.get("c"), dict) else None
+        if isinstance(c, dict) and c.get("k") == "lit" and isinstance(c.get("b"), bool):
+            br = e["t"] if c["b"] else e.get("e")
+            return desc(br) if br is not None else "()"
+        return "if"
     if k == "block":
         if e.get("e") is not None and not e.get("s"):
             return desc(e["e"])
@@ -349,6 +355,10 @@ class Enum:
             return res
         if k == "if":
             c = e["c"]
+            cl = thir.peel(c) if isinstance(c, dict) else None
+            if isinstance(cl, dict) and cl.get("k") == "lit" and isinstance(cl.get("b"), bool):
+                # literal condition (cfg!(..)): only one branch exists
+                return self.paths(e["t"] if cl["b"] else e.get("e"))
             res = []
             cps = self.paths(c)
             is_let = isinstance(c, dict) and c.get("k") == "letx"
@@ -415,6 +425,9 @@ class Enum:
                     res.append(p)
                     continue
                 for i, arm in enumerate(e["arms"]):
+                    gl = thir.peel(arm["g"]) if isinstance(arm.get("g"), dict) else None
+                    if isinstance(gl, dict) and gl.get("k") == "lit" and gl.get("b") is False:
+                        continue  # `if cfg!(other_platform)` guard: the arm cannot be taken
                     head = p.then(P([("arm", sd, (thir.pat_str(arm["p"]),), i, Ref(arm))]))
                     ab = thir.peel(arm["b"])
                     lit_bool = ab.get("b") if isinstance(ab, dict) and ab.get("k") == "lit" and "b" in ab else None
